@@ -303,6 +303,7 @@ class Actor(object):
         self.error = None
         self.worker = None
         self.pending = None
+        self.kinds = {}
         self.loads = []
         self.stores = []
         self.ctor = {'first': None, 'last': None, 'done': False}
@@ -325,6 +326,7 @@ class Actor(object):
             if self.killed:
                 raise Killed()
             self.granted += 1
+        self.kinds[kind] = self.kinds.get(kind, 0) + 1
         w.clock += 1
         t = w.clock
         e = {'t': t, 'a': self.idx, 'k': kind, 'phase': self.phase}
@@ -1098,8 +1100,14 @@ def run_schedule(case, scratch):
                 return False
             hit = False
             for a in actors:
-                if a.idx == crash['actor'] % len(actors) and a.state == 'parked' and not a.crashed \
-                        and a.granted >= crash['at']:
+                if a.idx != crash['actor'] % len(actors) or a.state != 'parked' or a.crashed:
+                    continue
+                if 'before' in crash:
+                    # killed when about to make its (skip+1)-th step of that kind
+                    due = a.pending == crash['before'] and a.kinds.get(a.pending, 0) >= int(crash.get('skip', 0))
+                else:
+                    due = a.granted >= crash['at']
+                if due:
                     a.crashed = True
                     hit = True
             return hit
@@ -1565,6 +1573,8 @@ UNTIL_KINDS = ['rename', 'rename', 'stat', 'stat', 'read', 'read', 'open', 'unli
                'write', 'close', 'listdir', 'copy-open-dst', 'copy-open-dst', 'copy-chunk', 'copystat', 'copystat',
                'unlink-src']
 _ACT = st.sampled_from([0, 1, 2, 0, 1, 2, 7])
+CRASH_KINDS = ['write', 'write', 'close', 'rename', 'copy-open-dst', 'copy-chunk', 'copy-chunk', 'copystat',
+               'unlink-src', 'unlink', 'read', 'stat', 'listdir', 'mkstemp']
 
 
 def _directed():
@@ -1618,10 +1628,14 @@ def _case(draw):
         actors[0]['ver'] = 1
         if n > 1:
             actors[1]['ver'] = draw(st.sampled_from([0, 1, 1]))
-        init = draw(st.sampled_from(['valid', 'valid', 'older', 'truncated', 'unreadable']))
+        init = draw(st.sampled_from(['valid', 'valid', 'older', 'touched', 'truncated', 'unreadable']))
         t = draw(st.tuples(st.sampled_from(['listdir', 'unlink', 'mkstemp', 'write', 'rename', 'copy-open-dst', 'copystat']),
-                           st.integers(0, 12), st.integers(0, 3)))
-        sched = [['u', 0, t[0]], ['s', 1, t[1]], ['s', 0, t[2]]] + draw(_directed())
+                           st.integers(0, 12), st.integers(0, 3), st.booleans()))
+        if t[3]:
+            # a reader is inside its load (entry opened) when the purge goes on
+            sched = [['u', 1, 'stat'], ['u', 0, t[0]], ['s', 0, 1 + t[2]]] + draw(_directed())
+        else:
+            sched = [['u', 0, t[0]], ['s', 1, t[1]], ['s', 0, t[2]]] + draw(_directed())
     elif flavour == 'midread':
         # a reader has validated and partly read the entry when the source changes and a writer replaces the entry
         n = max(n, 2)
@@ -1636,8 +1650,19 @@ def _case(draw):
             + draw(_directed())
     else:
         sched = draw(_sched())
-    crash = draw(st.one_of(st.none(), st.none(),
-                           st.fixed_dictionaries({'actor': st.integers(0, n - 1), 'at': st.integers(0, 28)})))
+    crash = draw(st.one_of(st.none(), st.none(), st.none(),
+                           st.fixed_dictionaries({'actor': st.integers(0, n - 1), 'at': st.integers(0, 28)}),
+                           st.fixed_dictionaries({'actor': st.integers(0, n - 1),
+                                                  'before': st.sampled_from(CRASH_KINDS), 'skip': st.integers(0, 3)})))
+    probe_ver = draw(st.sampled_from([0, 0, 0, 1]))
+    if flavour == 'purge' and draw(st.integers(0, 2)) == 0:
+        # the purging scanner is killed inside its constructor; scanners of the new version look afterwards
+        for a in actors:
+            a['ver'] = 1
+        crash = {'actor': 0, 'before': draw(st.sampled_from(['listdir', 'unlink', 'rename', 'mkstemp', 'copy-chunk',
+                                                             'copystat', 'unlink-src'])), 'skip': 0}
+        probe_ver = draw(st.sampled_from([1, 1, 0]))
+        init = draw(st.sampled_from(['valid', 'valid', init]))
     return {'actors': actors,
             'rewrites': rewrites,
             'init': init,
@@ -1648,7 +1673,7 @@ def _case(draw):
             'chunk': draw(st.sampled_from([600, 1200, 4096])),
             'coarse': draw(st.booleans()),
             'crash': crash,
-            'probe_ver': draw(st.sampled_from([0, 0, 0, 1])),
+            'probe_ver': probe_ver,
             'sched': sched}
 
 
